@@ -14,6 +14,7 @@ type qelim struct {
 	failed  bool
 	memo    map[[2]int]*Term
 	selIdx  map[*Term][]*Term // array term -> indices it is selected at
+	imemo   map[[3]int]*Term
 }
 
 func (q *qelim) addCand(t *Term) {
@@ -188,6 +189,22 @@ func (q *qelim) instantiate(t *Term, prove bool, depth int) *Term {
 	if !hasQuant(t) {
 		return t
 	}
+	if q.imemo == nil {
+		q.imemo = map[[3]int]*Term{}
+	}
+	key := [3]int{t.id, depth, 0}
+	if prove {
+		key[2] = 1
+	}
+	if r, ok := q.imemo[key]; ok {
+		return r
+	}
+	r := q.instantiate1(t, prove, depth)
+	q.imemo[key] = r
+	return r
+}
+
+func (q *qelim) instantiate1(t *Term, prove bool, depth int) *Term {
 	switch t.Op {
 	case "not":
 		return Not(q.instantiate(t.Args[0], !prove, depth))
